@@ -156,7 +156,11 @@ class C17(Property):
               "rate": W.pick("rate", [None, None, 8000, 22050]),
               # an explicit output device (0 is a valid PortAudio index)
               "dev": W.pick("dev", [None, None, None, 0, 5]),
-              "extra_kw": W.chance("extra-kw", 1, 5)}
+              "extra_kw": W.chance("extra-kw", 1, 5),
+              # the played generator itself calls play() (from the player
+              # thread) when it reaches this item
+              "spawn_at": W.choose("spawnat", max(1, ln)) if kind == "gen"
+              and W.chance("spawn", 1, 4) else None}
       if spec["use_global"]:
         spec["chunk_size"] = gchunk
       specs.append(spec)
@@ -374,14 +378,16 @@ class C17(Property):
       if sp["kind"] not in ("periodic", "rec"):
         per = sp["chunk_size"] * sp["channels"]
         finite_chunks += -(-sp["len"] // per)
+    rt_specs = []        # spec of ctl["players"][i], in creation order
     ctl = {"players": [], "stopped": set(), "pos": 0, "aio": None,
+           "script_players": [],
            "finished_before_close": set(), "rec": [], "paused": set()}
 
     def endless_runnable(sched):
       if sched.phase != 1:
         return False
       for i, th in enumerate(ctl["players"]):
-        if specs[i]["kind"] in ("periodic", "rec") and th is not None and \
+        if rt_specs[i]["kind"] in ("periodic", "rec") and th is not None and \
            th._sim_thread.state != "finished":
           return True
       return False
@@ -445,6 +451,26 @@ class C17(Property):
           raise ValueError("injected failure of the played iterable")
         yield v
 
+    def spawning(p, vals, at):
+      # play() called from inside a player thread: a child player.  Once
+      # close() has begun play() raises by design: the generator survives it.
+      for j, v in enumerate(vals):
+        if j == at:
+          cspec = {"kind": "list", "len": 3, "chunk_size": 2, "channels": 1,
+                   "dfmt": "f", "use_global": False, "child_of": p}
+          cidx = len(ctl["players"])
+          try:
+            ctl["players"].append(None)
+            rt_specs.append(cspec)
+            th = ctl["aio"].play(audio_values(cidx, cspec), chunk_size=2)
+            ctl["players"][cidx] = th
+            res.counters["probe.play-called-from-a-player-thread"] += 1
+          except Exception:
+            ctl["players"].pop()
+            rt_specs.pop()
+            res.counters["probe.child-play-refused-during-close"] += 1
+        yield v
+
     def make_audio(p, spec):
       if obs and obs["what"] == "source-raises" and obs["player"] == p \
          and spec["kind"] != "rec":
@@ -459,6 +485,8 @@ class C17(Property):
         return audio_values(p, spec)
       if spec["kind"] == "gen":
         vals = audio_values(p, spec)
+        if spec.get("spawn_at") is not None:
+          return spawning(p, vals, spec["spawn_at"])
         return (v for v in vals)
       per = audio_values(p, spec, spec["len"])
       if len(per) == 1:
@@ -509,6 +537,8 @@ class C17(Property):
           if not spec.get("use_global"):
             kw["chunk_size"] = spec["chunk_size"]
           ctl["players"].append(None)
+          rt_specs.append(spec)
+          ctl["script_players"].append(p)
           th = aio.play(make_audio(p, spec), **kw)
           ctl["players"][p] = th
         elif name == "record":
@@ -522,7 +552,7 @@ class C17(Property):
           rec = aio.record(**rkw)
           ctl["rec"].append(rec)
           ctl.setdefault("rec_specs", []).append(
-            (op[1], world.streams[-1], rec))
+            (op[1], [st for st in world.streams if st.is_input][-1], rec))
           if not rec.recording:
             outcome["rec_flag"] = "recording is False right after record()"
         elif name == "rec_take":
@@ -536,29 +566,32 @@ class C17(Property):
             ctl["rec_stopped"] = True
             res.counters["probe.recording-stopped-before-close"] += 1
         else:
-          th = ctl["players"][op[1]]
+          pi = ctl["script_players"][op[1]]     # children shift the indexes
+          th = ctl["players"][pi]
           if name == "pause":
             if th._sim_thread.state == "blocked" and \
                th._sim_thread.block_kind == "ev.wait":
               res.counters["probe.pause-while-already-paused"] += 1
             th.pause()
-            ctl["paused"].add(op[1])
+            ctl["paused"].add(pi)
           elif name == "resume":
-            if op[1] in ctl["paused"] and \
+            if pi in ctl["paused"] and \
                workload["script"][pos - 1] == ["pause", op[1]]:
               res.counters["probe.pause-immediately-resumed"] += 1
             th.play()
-            ctl["paused"].discard(op[1])
+            ctl["paused"].discard(pi)
           elif name == "stop":
             st = th._sim_thread
             if st.state == "blocked" and st.block_kind == "ev.wait":
               res.counters["probe.stop-while-paused"] += 1
             th.stop()
-            ctl["stopped"].add(op[1])
+            ctl["stopped"].add(pi)
       ctl["pos"] = len(workload["script"])
 
     def before_close(aio):
       for i, th in enumerate(ctl["players"]):
+        if th is None:
+          continue
         if th._sim_thread.state == "finished":
           ctl["finished_before_close"].add(i)
         elif th._sim_thread.state == "blocked" and \
@@ -566,7 +599,7 @@ class C17(Property):
           res.counters["probe.close-with-paused-player"] += 1
       if not ctl["players"]:
         res.counters["probe.close-with-zero-players"] += 1
-      bound = 5000 + 400 * (finite_chunks + len(specs) + 1)
+      bound = 5000 + 400 * (finite_chunks + 2 * len(specs) + 4)
       sched.enter_phase2(bound)
 
     def main():
@@ -612,9 +645,9 @@ class C17(Property):
         aio2.finished = True
         outcome["close_returned_at"] = len(world.history)
       outcome["alive_after_close"] = [i for i, th in enumerate(ctl["players"])
-                                      if th.is_alive()]
-      outcome["writes_at_close"] = [len(th.stream.writes)
-                                    for th in ctl["players"]]
+                                      if th is not None and th.is_alive()]
+      outcome["writes_at_close"] = [len(th.stream.writes) if th is not None
+                                    else 0 for th in ctl["players"]]
       outcome["threads_left"] = len(getattr(aio, "_threads", ()))
       if workload["after"].get("close2"):
         before = len(world.history)
@@ -677,7 +710,7 @@ class C17(Property):
                                  "died" if crashed else "survived", how))
       violation = None
     elif violation is None and not sched.budget_exhausted:
-      violation = self.judge(workload, specs, ctl, world, outcome, sched)
+      violation = self.judge(workload, rt_specs, ctl, world, outcome, sched)
     res.violation = violation
 
     # ------------------------------------------------------------ accounting
@@ -769,6 +802,8 @@ class C17(Property):
     hist = world.history
     # --- per player stream: framing, content, order
     for p, th in enumerate(ctl["players"]):
+      if th is None:
+        continue
       spec = specs[p]
       st = th.stream
       cs, ch, fmt = spec["chunk_size"], spec["channels"], spec["dfmt"]
